@@ -357,6 +357,15 @@ func subDialer() mon.Sub {
 				name := string(offer[0].Name)
 				respExt := fmt.Sprintf("%s; srv%d=%d; done", name, k%9, k%13)
 				trail := bytes.Repeat([]byte{byte('a' + k%26)}, []int{0, 3, 200}[k%3])
+				// one server in five echoes the subprotocol in another letter case (a normalising proxy): whether the
+				// dialer takes that is C10's business - IF it does, what it reports is held like any other result
+				echo := protoFor(k)
+				if k%5 == 4 {
+					echo = strings.ToUpper(echo[:1]) + echo[1:]
+					if echo == protoFor(k) {
+						echo = strings.ToUpper(echo)
+					}
+				}
 				conn := &fakeconn.Script{Plan: xport.Plans(int64(k), nil)[k%11]}
 				conn.Respond = func(written []byte) []byte {
 					req, err := http.ReadRequest(bufio.NewReader(bytes.NewReader(written)))
@@ -364,10 +373,13 @@ func subDialer() mon.Sub {
 						return nil
 					}
 					head := "HTTP/1.1 101 Switching Protocols\r\nUpgrade: websocket\r\nConnection: Upgrade\r\nSec-WebSocket-Accept: " + ref.Accept(req.Header.Get("Sec-Websocket-Key")) +
-						"\r\nSec-WebSocket-Protocol: " + protoFor(k) + "\r\nSec-WebSocket-Extensions: " + respExt + "\r\n\r\n"
+						"\r\nSec-WebSocket-Protocol: " + echo + "\r\nSec-WebSocket-Extensions: " + respExt + "\r\n\r\n"
 					return append([]byte(head), trail...)
 				}
 				br, h, err := d.Upgrade(conn, u)
+				if err != nil && echo != protoFor(k) {
+					continue // the case-variant echo was refused: nothing to hold
+				}
 				if err != nil {
 					c.Fail("harness/dial-error", "valid response refused: "+err.Error(), nil)
 					return
@@ -376,7 +388,11 @@ func subDialer() mon.Sub {
 					ws.PutReader(br)
 				}
 				hh := h
-				hs = append(hs, held{what: "Dialer handshake result", get: func() string { return renderHS(hh) }, want: renderOpts(protoFor(k), []string{respExt})})
+				want := renderOpts(protoFor(k), []string{respExt})
+				if echo != protoFor(k) && h.Protocol == echo {
+					want = renderOpts(echo, []string{respExt}) // reported the way the server spelled it
+				}
+				hs = append(hs, held{what: "Dialer handshake result", get: func() string { return renderHS(hh) }, want: want})
 				if !recheck(c, hs, fmt.Sprintf("dial #%d", i)) {
 					return
 				}
@@ -391,7 +407,9 @@ func subDialer() mon.Sub {
 				return
 			}
 			c.Classf("n=%d", n)
-			c.Sample(map[string]interface{}{"dials": n, "first": hs[0].want})
+			if len(hs) > 0 {
+				c.Sample(map[string]interface{}{"dials": n, "first": hs[0].want})
+			}
 		},
 	}
 }
